@@ -168,15 +168,16 @@ func chainRun(c *Ctx, net *Net, g *TxGen, f *Factory, o ChainRunOpts) {
 				rec.Post = DumpState(f.DB, blk.Hash(), rec.Universe, rec.Keys)
 			})
 		}
-		if d >= len(net.Deputies) && rec.Pre != nil {
-			// an elected user's income address is whatever its candidate profile says before the block
-			inc := who.Miner.Addr
-			if s := profileField(rec.Pre[who.Miner.Addr]["profile"], types.CandidateKeyIncomeAddress); s != "" {
-				if a, err := common.StringToAddress(s); err == nil {
-					inc = a
+		if rec.Post != nil {
+			// the fees go to the income address the miner's candidate profile names when the block is finalised
+			// (the miner may change it by a transaction of its own in this very block); default: the miner account
+			if s := profileField(rec.Post[who.Miner.Addr]["profile"], types.CandidateKeyIncomeAddress); s != "" {
+				if a, err := common.StringToAddress(s); err == nil && a != who.Income.Addr {
+					rec.Miner = &Deputy{Node: who.Node, Miner: who.Miner, Income: &keyInfo{Addr: a}, Rank: who.Rank}
 				}
+			} else if d >= len(net.Deputies) {
+				rec.Miner = &Deputy{Node: who.Node, Miner: who.Miner, Income: &keyInfo{Addr: who.Miner.Addr}, Rank: who.Rank}
 			}
-			rec.Miner = &Deputy{Node: who.Node, Miner: who.Miner, Income: &keyInfo{Addr: inc}, Rank: who.Rank}
 		}
 		if o.OnBlock != nil && !o.OnBlock(rec) {
 			return
